@@ -387,4 +387,23 @@ theorem C17_valueStage_is_decision (J : Json) (args : Tag.Args) (ty : FieldTy) (
 
 end code
 
+/-! ### how the library drives mapstructure (regenerated facts)
+
+    `Ioc.Value.decode` is the semantics of mapstructure's decoder under EXACTLY these options: weakly typed input (numbers,
+    booleans and strings convert into one another, a single value becomes a one-element slice), member keys matched with the
+    default matcher (`MatchName: nil` = the exact key first, else `strings.EqualFold`), the `yaml` tag for member names, no
+    squashing, no zeroing of the target, unused and unset keys tolerated.  A change of the literal changes this fact, the theorem
+    no longer checks, and the search for a failing input starts. -/
+theorem C17_decoder_options :
+    Facts.decoderOptions =
+      [("DecodeHook", "mapstructure.ComposeDecodeHookFunc(hooks...)"), ("ErrorUnused", "false"), ("ErrorUnset", "false"),
+       ("ZeroFields", "false"), ("WeaklyTypedInput", "true"), ("Squash", "false"), ("Metadata", "nil"), ("Result", "v"),
+       ("TagName", "\"yaml\""), ("IgnoreUntaggedFields", "false"), ("MatchName", "nil")] := by decide
+
+/-- the hooks Unmarshall installs: duration strings always; a time layout exactly as the FIRST item of the `timeLayout`
+    argument is written (`args[0]`, nothing joined, trimmed or stripped); the `mapper` argument names the tag -/
+theorem C17_unmarshall_hooks :
+    Facts.unmarshallHooks = [("mapstructure.StringToTimeDurationHookFunc", ""), ("mapstructure.StringToTimeHookFunc", "args[0]")] ∧
+    Facts.unmarshallArgNames = [("unmarshallArgTagName", "mapper"), ("unmarshallArgTimeLayout", "timeLayout")] := by decide
+
 end Ioc.C17
